@@ -347,11 +347,35 @@ Qed.
 (* ---------------------------------------------------------------------------------------------- *)
 (* (c) per file: include list, header, body                                                        *)
 (* ---------------------------------------------------------------------------------------------- *)
+Lemma flat_map_nil {A B} (f : A -> list B) l : (forall x, In x l -> f x = []) -> flat_map f l = [].
+Proof. intros H; induction l as [|x l IH]; cbn; [reflexivity|]. rewrite H by (left; reflexivity). apply IH. intros; apply H; right; assumption. Qed.
+
+(* every inventory row accounted for => nothing of the environment is shown through the "unknown" channel *)
+Lemma unknown_leak_nil t e : tables_ok t = true -> unknown_leak t e = [].
+Proof.
+  unfold tables_ok. intros H. repeat (apply andb_prop in H as [H ?]).
+  unfold unknown_leak.
+  repeat match goal with Hx : forallb _ _ = true |- _ => rewrite forallb_forall in Hx end.
+  rewrite !flat_map_nil; [reflexivity| | | | | |]; intros x Hx.
+  - rewrite H0; [reflexivity|exact Hx].
+  - rewrite H1; [reflexivity|exact Hx].
+  - rewrite H2; [reflexivity|exact Hx].
+  - rewrite H3; [reflexivity|exact Hx].
+  - unfold leak_of_read. rewrite H4; [reflexivity|exact Hx].
+  - rewrite H; [reflexivity|exact Hx].
+Qed.
+
 Section Indep.
   Variable B : Type.
   Variable sf : src_facts.
   Variable tbl : list site.
-  Variable render : option audit -> cfg -> item -> list (list str) -> B.
+  Variable render : env -> cfg -> item -> list (list str) -> B.
+  (* NAMED PREMISE: the real template body (engine, filters, tests, globals) looks at the environment only through
+     [body_view] = the audit view + what the regenerated inventories leave unaccounted for.  Its backing facts are the
+     inventories themselves ([tables_ok]: every filter/test/global reaching templates was scanned for ambient reads, every
+     included file was scanned, ...); what no scan can see (vendored Jinja2, pydsdl, stdlib internals) is covered only by
+     the paired real runs. *)
+  Hypothesis render_pure : render_sees_only_body_view B sf render.
 
   (* what two environments must still agree on, given the ungated uses the table shows for the language:
      nothing at all when every use is gated *)
@@ -369,7 +393,7 @@ Section Indep.
 
   Definition order_facts (c : cfg) : bool :=
     (negb (uses_includes (c_lang c)) || sf_inc_sorted sf) && negb (ungated tbl (c_lang c) KNsIter) && sf_natsort_total sf
-    && config_order_ok c.
+    && config_order_ok c && tables_ok (sf_tables sf).
 
   Lemma include_list_indep e1 e2 c d :
     sf_inc_sorted sf = true -> include_list sf e1 c d = include_list sf e2 c d.
@@ -407,10 +431,10 @@ Section Indep.
   Qed.
 
   Lemma header_indep e1 e2 c it :
-    c_embed_audit c = false -> config_order_ok c = true -> env_agree (c_lang c) e1 e2 ->
+    c_embed_audit c = false -> config_order_ok c = true -> tables_ok (sf_tables sf) = true -> env_agree (c_lang c) e1 e2 ->
     header sf tbl e1 c it = header sf tbl e2 c it.
   Proof.
-    intros Ha Hco Hag. unfold header. f_equal.
+    intros Ha Hco Htb Hag. unfold header. rewrite !(unknown_leak_nil _ _ Htb). cbn [app]. f_equal.
     2:{ unfold config_order_ok in Hco. destruct (c_config_files c) eqn:E; [reflexivity|].
         unfold eff_option, load_order. rewrite Hco. reflexivity. }
     apply map_ext_in. intros s Hs. apply filter_In in Hs as [Hin Hf].
@@ -429,13 +453,14 @@ Section Indep.
     c_embed_audit c = false -> order_facts c = true -> env_agree (c_lang c) e1 e2 ->
     mk_write B sf tbl render e1 c I it = mk_write B sf tbl render e2 c I it.
   Proof.
-    intros Ha Hof Hag. apply andb_prop in Hof as [Hof Hco]. apply andb_prop in Hof as [Hof Hnat].
+    intros Ha Hof Hag. apply andb_prop in Hof as [Hof Htb]. apply andb_prop in Hof as [Hof Hco]. apply andb_prop in Hof as [Hof Hnat].
     apply andb_prop in Hof as [Hinc Hns]. apply negb_true_iff in Hns.
     unfold mk_write. f_equal. f_equal.
     - apply header_indep; assumption.
     - destruct it; try reflexivity. destruct (uses_includes (c_lang c)); [|reflexivity].
       apply include_list_indep. exact Hinc.
-    - unfold audit_view. rewrite Ha. f_equal. apply nested_view_indep; assumption.
+    - rewrite (nested_view_indep e1 e2 c I it Hns Hnat). apply render_pure.
+      unfold body_view, audit_view. rewrite Ha, !(unknown_leak_nil _ _ Htb). reflexivity.
   Qed.
 
   (* the multiset of (relative path, content) writes does not depend on the environment *)
@@ -577,21 +602,37 @@ Section Indep.
 
   Lemma clean_order_facts c :
     lang_clean sf tbl (c_lang c) = true -> sf_inc_sorted sf = true -> sf_natsort_total sf = true ->
-    sf_config_cmdline_order sf = true -> order_facts c = true.
+    sf_config_cmdline_order sf = true -> tables_ok (sf_tables sf) = true -> order_facts c = true.
   Proof.
-    intros Hc Hs Hn Hco. unfold order_facts, config_order_ok. rewrite Hs, Hn, Hco, (clean_no_ungated _ KNsIter Hc) by discriminate.
+    intros Hc Hs Hn Hco Htb. unfold order_facts, config_order_ok.
+    rewrite Hs, Hn, Hco, Htb, (clean_no_ungated _ KNsIter Hc) by discriminate.
     rewrite orb_true_r. destruct (c_config_files c); reflexivity.
   Qed.
 
+  (* with get_nested_namespaces() sorted the two runs perform the SAME SEQUENCE of writes: no premise about distinct paths
+     is needed (two items folding onto one path are overwritten in the same order in both runs) *)
+  Theorem writes_env_eq e1 e2 c I :
+    c_embed_audit c = false -> order_facts c = true -> env_agree (c_lang c) e1 e2 -> sf_nested_sorted sf = true ->
+    writes B sf tbl render e1 c I = writes B sf tbl render e2 c I.
+  Proof.
+    intros Ha Hof Hag Hns. unfold writes. rewrite (gen_order_env_indep sf e1 e2 c I Hns).
+    apply map_ext. intros it. apply mk_write_indep; assumption.
+  Qed.
+
+  Theorem run_env_indep_seq e1 e2 c I :
+    c_embed_audit c = false -> order_facts c = true -> env_agree (c_lang c) e1 e2 -> sf_nested_sorted sf = true ->
+    forall p, files B sf tbl render e1 c I p = files B sf tbl render e2 c I p.
+  Proof. intros Ha Hof Hag Hns p. unfold files. rewrite (writes_env_eq e1 e2 c I Ha Hof Hag Hns). reflexivity. Qed.
+
+
   Theorem run_env_indep_clean e1 e2 c I :
     c_embed_audit c = false -> src_facts_ok sf = true -> lang_clean sf tbl (c_lang c) = true ->
-    NoDup (out_paths B sf tbl render e1 c I) ->
     forall p, files B sf tbl render e1 c I p = files B sf tbl render e2 c I p.
   Proof.
-    intros Ha Hsf Hc. apply run_env_indep_gen; [exact Ha| |apply clean_env_agree; exact Hc].
-    unfold src_facts_ok in Hsf. repeat (apply andb_prop in Hsf as [Hsf ?]).
-    apply clean_order_facts; assumption.
+    intros Ha Hsf Hc. unfold src_facts_ok in Hsf. repeat (apply andb_prop in Hsf as [Hsf ?]).
+    apply run_env_indep_seq; [exact Ha | apply clean_order_facts; assumption | apply clean_env_agree; exact Hc | assumption].
   Qed.
+
 
   (* the only ungated use being `T | pickle` (F-PY-PICKLEPATH): everything but the absolute location is still
      irrelevant *)
@@ -633,20 +674,19 @@ Section Indep.
   Theorem run_env_indep_same_location e1 e2 c I :
     c_embed_audit c = false -> src_facts_ok sf = true -> lang_clean_but_pickle sf tbl (c_lang c) = true ->
     e_abs e1 = e_abs e2 ->
-    NoDup (out_paths B sf tbl render e1 c I) ->
     forall p, files B sf tbl render e1 c I p = files B sf tbl render e2 c I p.
   Proof.
     intros Ha Hsf Hc Habs. unfold src_facts_ok in Hsf. repeat (apply andb_prop in Hsf as [Hsf ?]).
-    apply run_env_indep_gen; [exact Ha| |].
+    apply run_env_indep_seq; [exact Ha| | |assumption].
     - unfold order_facts, config_order_ok. rewrite Hsf, (pickle_only_no_ungated _ KNsIter Hc) by discriminate.
       rewrite orb_true_r. cbn [negb andb].
-      match goal with H : sf_natsort_total sf = true |- _ => rewrite H end.
-      match goal with H : sf_config_cmdline_order sf = true |- _ => rewrite H end.
+      repeat match goal with H : _ = true |- _ => rewrite H end.
       destruct (c_config_files c); reflexivity.
     - unfold env_agree.
       rewrite (pickle_only_no_ungated _ KClock Hc), (pickle_only_no_ungated _ KCwd Hc) by discriminate.
       repeat split; try discriminate. intros _; exact Habs.
   Qed.
+
 End Indep.
 
 (* distinct output paths is itself independent of the environment (so the premise may be checked in any) *)
@@ -686,7 +726,9 @@ Definition env_b_same_abs : env := mk_env 2000 [[120]] [[97]] 2.
 Definition env_c : env := mk_env 3000 [[121]] [[99]; [100]] 2.
 Definition env_d : env := mk_env 1000 [[119]] [[97]] 3.
 
-Definition render0 : option audit -> cfg -> item -> list (list str) -> list (list str) := fun _ _ _ v => v.
+Definition render0 : env -> cfg -> item -> list (list str) -> list (list str) := fun _ _ _ v => v.
+Lemma render0_pure sf : render_sees_only_body_view _ sf render0.
+Proof. intros e1 e2 c it v _. reflexivity. Qed.
 Definition p_A (c : cfg) : list str := item_path c (ITy d_A).
 
 Theorem py_pickle_abs_path_refuted :
@@ -791,6 +833,13 @@ Proof.
          (writes _ facts_support_kept [] render0 env_root (mk_cfg LC false) ex_inputs).
   split; [vm_compute; left; reflexivity|]. vm_compute. discriminate.
 Qed.
+
+(* an inventory row that is not accounted for shows the environment in every file (here: HTML, which has no use site at all) *)
+Theorem unaccounted_row_refuted :
+  exists I e1 e2 p,
+    files _ facts_unknown_read [] render0 e1 (mk_cfg LHtml false) I p
+    <> files _ facts_unknown_read [] render0 e2 (mk_cfg LHtml false) I p.
+Proof. exists ex_inputs, env_a, env_b, (p_A (mk_cfg LHtml false)). vm_compute. discriminate. Qed.
 
 (* with --embed-auditing-info the files MAY differ: the premise of the theorem is needed *)
 Theorem audit_on_may_differ :
